@@ -51,7 +51,6 @@ Record fcell := { res : fres; fwaker : option waker }.
 #[export] Instance eta_evcell : Settable _ := settable! Build_evcell <fired; wakers>.
 #[export] Instance eta_fcell : Settable _ := settable! Build_fcell <res; fwaker>.
 
-Inductive preg := RReady | RPending.
 (* who polls a job, i.e. where its poll returns to: drain (pool), run_one_job_now (sync caller), drain_queue f with DrainWaker d *)
 Inductive kont := KDrain | KRoj | KDq (f d : nat).
 
@@ -70,7 +69,6 @@ Inductive frame :=
 | FDQwfw (f d : nat) | FDQstore (f d : nat) | FDQwfp (f d : nat)
 | FDQempty1 (f : nat) | FDQempty2 (f : nat) | FDQidle (f : nat)
 | FWakeWith (d : nat) (w : waker)
-| FRet (r : preg)
 (* sync *)
 | FS1 (op : nat) (tk : option nat)
 | FClosure (op : nat) (tk : option nat) | FSIidle
@@ -91,8 +89,8 @@ Inductive frame :=
 
 Inductive gev := GPush (o : nat) | GStart (o : nat) | GFinish (o : nat) | GSig (f v : nat) | GResolve (f v : nat).
 
-Record arec := { stack : list frame; reg : preg; token : bool; sres : bool }.
-#[export] Instance eta_arec : Settable _ := settable! Build_arec <stack; reg; token; sres>.
+Record arec := { stack : list frame; token : bool; sres : bool }.
+#[export] Instance eta_arec : Settable _ := settable! Build_arec <stack; token; sres>.
 
 Record state := {
   qs : qstate; jobs : list job; insched : nat;
@@ -108,7 +106,6 @@ Inductive lockclass := LCore | LSched | LFres | LDw | LDbl | LEv | LNone.
 (* ---------- small helpers ---------- *)
 Definition upda (s : state) (a : nat) (f : arec -> arec) := s <| actors := alter f a s.(actors) |>.
 Definition setstack (s : state) (a : nat) (st : list frame) := upda s a (fun x => x <| stack := st |>).
-Definition setstackreg (s : state) (a : nat) (st : list frame) (r : preg) := upda s a (fun x => x <| stack := st |> <| reg := r |>).
 Definition settoken (s : state) (c : nat) (b : bool) := upda s c (fun x => x <| token := b |>).
 Definition setsres (s : state) (c : nat) (b : bool) := upda s c (fun x => x <| sres := b |>).
 
@@ -138,6 +135,10 @@ Definition take_f (s : state) (f : nat) : option (state * option nat) :=
   | Some (r', Some v) => Some (addlog (setf s f (c <| res := r' |>)) [GResolve f v], Some v)
   end.
 
+(* a poll of a SchedulerFuture that is going to return Ready ends the caller's await / poll-and-drop loop: the continuation
+   frame (which would only be popped on Ready) is removed at the step that takes the result *)
+Definition pop_cont (rest : list frame) : list frame :=
+  match rest with FAwRet _ :: r | FDropRet _ _ :: r => r | _ => rest end.
 Definition wake_frames (ws : list waker) : list frame := FWake <$> ws.
 Definition opt_wake (ow : option waker) : list frame := match ow with Some w => [FWake w] | None => [] end.
 
@@ -215,13 +216,13 @@ Definition step_fut (T : ftables) (s : state) (a : nat) (rest : list frame) (fr 
   | FSFpoll f =>                                      (* [fres f], nested [core] *)
       match take_f s f with
       | None => None
-      | Some (s1, Some v) => Some (setstackreg s1 a rest RReady)
+      | Some (s1, Some v) => Some (setstack s1 a (pop_cont rest))
       | Some (_, None) =>
           let '(st', act) := T.(t_poll) f s.(qs) in
           let s1 := s <| qs := st' |> in
           let store := setf s1 f (getf s1 f <| fwaker := Some (WTask a) |>) in
           match act with
-          | PAWait => Some (setstackreg store a rest RPending)
+          | PAWait => Some (setstack store a rest)
           | PADrain => goto s1 (FDQtake f)
           | PAPanic => None
           end
@@ -229,7 +230,7 @@ Definition step_fut (T : ftables) (s : state) (a : nat) (rest : list frame) (fr 
   | FDQtake f =>                                      (* [fres f] *)
       match take_f s f with
       | None => panic
-      | Some (s1, Some v) => goto s1 (FDQidle f)
+      | Some (s1, Some v) => Some (setstack s1 a (FDQidle f :: pop_cont rest))
       | Some (_, None) => goto s (FDQdeq f)
       end
   | FDQdeq f =>                                       (* dequeue [core]; a fresh DrainWaker for the job poll *)
@@ -245,18 +246,18 @@ Definition step_fut (T : ftables) (s : state) (a : nat) (rest : list frame) (fr 
   | FDQtake2 f d =>                                   (* [fres f] *)
       match take_f s f with
       | None => panic
-      | Some (s1, Some v) => goto s1 (FDQwfw f d)
+      | Some (s1, Some v) => Some (setstack s1 a (FDQwfw f d :: pop_cont rest))
       | Some (_, None) => goto s (FDQstore f d)
       end
-  | FDQwfw f d => Some (setstack (s <| qs := WaitingForWake |>) a (FWakeWith d WQueue :: FRet RReady :: rest))   (* [core] *)
+  | FDQwfw f d => Some (setstack (s <| qs := WaitingForWake |>) a (FWakeWith d WQueue :: rest))   (* [core] *)
   | FDQstore f d => goto (setf s f (getf s f <| fwaker := Some (WTask a) |>)) (FDQwfp f d)                     (* [fres f] *)
   | FDQwfp f d =>                                     (* [core]; then the DoubleWaker is built *)
       let k := length s.(dbl) in
       let s1 := s <| qs := WaitingForPoll f |> <| dbl := s.(dbl) ++ [Some (WQueue, WTask a)] |> in
-      Some (setstack s1 a (FWakeWith d (WDouble k) :: FRet RPending :: rest))
+      Some (setstack s1 a (FWakeWith d (WDouble k) :: rest))
   | FDQempty1 f => goto (setf s f (getf s f <| fwaker := Some (WTask a) |>)) (FDQempty2 f)                     (* [fres f] *)
-  | FDQempty2 f => Some (setstack (s <| qs := Idle |>) a (FRQ1 :: FRet RPending :: rest))                     (* [core] *)
-  | FDQidle f => Some (setstack (s <| qs := Idle |>) a (FRQ1 :: FRet RReady :: rest))                         (* [core] *)
+  | FDQempty2 f => Some (setstack (s <| qs := Idle |>) a (FRQ1 :: rest))                     (* [core] *)
+  | FDQidle f => Some (setstack (s <| qs := Idle |>) a (FRQ1 :: rest))                         (* [core] *)
   | _ => None
   end.
 
@@ -345,7 +346,7 @@ Definition step_pool (T : ftables) (s : state) (a : nat) (rest : list frame) (fr
   end.
 
 (* ---------- caller top level, schedule_job_desync, uses of a returned future, fire ---------- *)
-Definition step_caller (T : ftables) (s : state) (a : nat) (r : preg) (tok : bool) (rest : list frame) (fr : frame) : option state :=
+Definition step_caller (T : ftables) (s : state) (a : nat) (tok : bool) (rest : list frame) (fr : frame) : option state :=
   let goto s' f := Some (setstack s' a (f :: rest)) in
   let panic : option state := None in
   match fr with
@@ -383,9 +384,9 @@ Definition step_caller (T : ftables) (s : state) (a : nat) (r : preg) (tok : boo
       | UDropAfter 0 => Some (setstack s a rest)
       | UDropAfter (S k) => Some (setstack s a (FSFpoll f :: FDropRet f k :: rest))
       end
-  | FAwRet f => match r with RReady => Some (setstack s a rest) | _ => goto s (FPark f) end
+  | FAwRet f => goto s (FPark f)                       (* reached only when the poll returned Pending *)
   | FPark f => if tok then Some (setstack (settoken s a false) a (FSFpoll f :: FAwRet f :: rest)) else None
-  | FDropRet f k => match r with RReady => Some (setstack s a rest) | _ => goto s (FUse f (UDropAfter k)) end
+  | FDropRet f k => goto s (FUse f (UDropAfter k))
   | FFS1 f =>                                         (* SchedulerFuture::sync: [fres f] take *)
       match take_f s f with
       | None => panic
@@ -395,7 +396,6 @@ Definition step_caller (T : ftables) (s : state) (a : nat) (r : preg) (tok : boo
   | FFire e =>                                        (* [ev e] fired := true, take the wakers; then call them *)
       let c := getev s e in
       Some (setstack (setev s e {| fired := true; wakers := [] |}) a (wake_frames c.(wakers) ++ rest))
-  | FRet r' => Some (setstackreg s a rest r')
   | FUnpark c => Some (setstack (settoken s c true) a rest)
   | _ => None
   end.
@@ -415,7 +415,7 @@ Definition step (T : ftables) (s : state) (a : nat) : option state :=
       | FS1 _ _ | FClosure _ _ | FSIidle | FSDpush _ _ | FSDloop | FSDidle | FSBreg _ _ | FSBpush _ _ | FSBwait | FSBdone
       | FROdeq | FROpend _ | FROcheck _ | FROpark _ | FRQ1 | FRQ2 => step_sync T s a ac.(sres) ac.(token) rest fr
       | FPIdle | FDRdeq | FDRrequeue _ | FDRpend | FDRfin => step_pool T s a rest fr
-      | _ => step_caller T s a ac.(reg) ac.(token) rest fr
+      | _ => step_caller T s a ac.(token) rest fr
       end
   end.
 
@@ -440,7 +440,7 @@ Definition step_label (s : state) (a : nat) : option (lockclass * nat) :=
   ac ← s.(actors) !! a; fr ← head ac.(stack); Some (frame_label fr).
 
 (* configuration: caller scripts, number of pool runners, number of external events *)
-Definition mk_actor (st : list frame) : arec := {| stack := st; reg := RReady; token := false; sres := false |}.
+Definition mk_actor (st : list frame) : arec := {| stack := st; token := false; sres := false |}.
 Definition init (scripts : list (list cop)) (npool nev : nat) : state :=
   {| qs := Idle; jobs := []; insched := 0; evs := replicate nev ev_new; futs := []; dws := []; dbl := [];
      actors := ((fun sc => mk_actor [FTop sc]) <$> scripts) ++ replicate npool (mk_actor [FPIdle]);
